@@ -407,7 +407,7 @@ const Prelude = `(set-option :produce-models true)
 (define-fun inrange64 ((x Int)) Bool (and (<= (- 9223372036854775808) x) (<= x 9223372036854775807)))
 (define-fun godiv ((a Int) (b Int)) Int (ite (>= a 0) (ite (> b 0) (div a b) (- (div a (- b)))) (ite (> b 0) (- (div (- a) b)) (div (- a) (- b)))))
 (define-fun gomod ((a Int) (b Int)) Int (- a (* b (godiv a b))))
-(define-fun wf-slice ((s Slice)) Bool (and (>= (s-off s) 0) (>= (s-len s) 0) (<= (s-len s) (s-cap s)) (<= (s-cap s) 9223372036854775807) (>= (s-arr s) 0) (=> (= (s-arr s) 0) (and (= (s-cap s) 0) (= (s-off s) 0)))))
+(define-fun wf-slice ((s Slice)) Bool (and (>= (s-off s) 0) (>= (s-len s) 0) (<= (s-len s) (s-cap s)) (<= (s-cap s) 4611686018427387904) (>= (s-arr s) 0) (=> (= (s-arr s) 0) (and (= (s-cap s) 0) (= (s-off s) 0)))))
 (declare-fun sumlen ((Array Int Slice) Int Int) Int)
 (define-fun nil-slice () Slice (mk-slice 0 0 0 0))
 (define-fun nil-iface () Iface (mk-iface 0 0))
